@@ -83,6 +83,19 @@ func (spec Spec) Validate() error {
 	if spec == (Spec{}) {
 		return fmt.Errorf("none of the validations are defined")
 	}
+	if spec.Signature != nil && len(spec.Signature.AccessKeys) == 0 {
+		return fmt.Errorf("signature: accessKeys is required to verify signatures")
+	}
+	if o := spec.OAuth2; o != nil {
+		if o.TokenIntrospect == nil && o.JWT == nil {
+			return fmt.Errorf("oauth2: one of tokenIntrospect and jwt is required")
+		}
+		if o.TokenIntrospect != nil {
+			if _, err := http.NewRequest(http.MethodPost, o.TokenIntrospect.EndPoint, nil); err != nil {
+				return fmt.Errorf("oauth2: invalid endPoint: %v", err)
+			}
+		}
+	}
 	return nil
 }
 
